@@ -39,6 +39,8 @@ type Exchange struct {
 	cutAt       int   // client may read written[:cutAt] after a cut
 	cancel      context.CancelFunc
 	panicVal    any
+	chunks      []int // client-side reads return at most chunks[i%len] bytes (see Transport.Chunks)
+	reads       int
 }
 
 // Status returns the response status (0 until committed).
@@ -147,6 +149,12 @@ func (b *body) Read(p []byte) (int, error) {
 			limit = e.cutAt
 		}
 		if e.readOff < limit {
+			if len(e.chunks) > 0 {
+				if c := e.chunks[e.reads%len(e.chunks)]; c > 0 && c < len(p) {
+					p = p[:c]
+				}
+				e.reads++
+			}
 			n := copy(p, e.written.Bytes()[e.readOff:limit])
 			e.readOff += n
 			// Like net/http for a body whose end is already known, deliver the last bytes
@@ -195,6 +203,9 @@ type Transport struct {
 	Handler http.Handler
 	// LocalAddr, if set, is exposed as http.LocalAddrContextKey (what net/http does for real listeners).
 	LocalAddr net.Addr
+	// Chunks, if non-empty, bounds the size of successive client-side body reads (cyclically), so
+	// that read boundaries fall at arbitrary places inside the response body.
+	Chunks []int
 	// Fail, if set, is consulted first: a non-nil error is returned from RoundTrip (transport failure).
 	Fail func(req *http.Request) error
 
@@ -229,7 +240,7 @@ func (t *Transport) RoundTrip(req *http.Request) (*http.Response, error) {
 		reqBody, _ = io.ReadAll(req.Body)
 		req.Body.Close()
 	}
-	e := &Exchange{Method: req.Method, URL: req.URL.String(), Header: req.Header.Clone(), Body: reqBody}
+	e := &Exchange{Method: req.Method, URL: req.URL.String(), Header: req.Header.Clone(), Body: reqBody, chunks: t.Chunks}
 	e.cond = sync.NewCond(&e.mu)
 	if tag, ok := req.Context().Value(tagKey{}).(string); ok {
 		e.Tag = tag
